@@ -13,3 +13,12 @@ uint64_t nd_raw(void)
     ND_LOG[ND_N++] = v;
     return v;
 }
+
+/* C03 monitor: set by the harnesses around the realtime part */
+unsigned int verif_rt_section;
+#include <stddef.h>
+void *malloc(size_t n) { __CPROVER_assert(!verif_rt_section, "C03 heap allocation (malloc) inside the realtime section"); return __CPROVER_allocate(n, 0); }
+void *calloc(size_t a, size_t b) { __CPROVER_assert(!verif_rt_section, "C03 heap allocation (calloc) inside the realtime section"); return __CPROVER_allocate(a * b, 1); }
+void *realloc(void *p, size_t n) { __CPROVER_assert(!verif_rt_section, "C03 heap allocation (realloc) inside the realtime section"); (void)p; return __CPROVER_allocate(n, 0); }
+void free(void *p) { __CPROVER_assert(!verif_rt_section, "C03 heap deallocation (free) inside the realtime section"); (void)p; }
+int pthread_mutex_lock(void *m) { __CPROVER_assert(!verif_rt_section, "C03 mutex taken inside the realtime section"); (void)m; return 0; }
